@@ -98,6 +98,13 @@ CHECKS = {
             "into an instance built under another seed: forward, inverse, log_prob, noise and seeded samples bit-identical in "
             "eval mode, and the same training-mode call on copies of both agrees.",
             "Bit-identity relies on one BLAS thread in one process (OMP_NUM_THREADS=1 set by ./check).", "DESIGN.md 3/C15"),
+    "C16": ("Hypothesis-generated transforms/flows in float64; autograd gradients w.r.t. inputs, context and parameters against "
+            "Richardson-extrapolated central differences along drawn directions, two step sizes to detect kinks",
+            "Exploration: forward and inverse directions and flow log_prob, train and eval mode: autograd.grad succeeds, is finite, "
+            "matches finite differences for inputs, context, sampled parameter tensors and all parameters jointly; no parameter "
+            "with a non-zero finite difference is left without gradient; a second forward+backward works.",
+            "UMNN tolerance 5e-2, cubic inverse 2e-3 (documented numerical limits); step-size disagreement = kink = inconclusive.",
+            "DESIGN.md 3/C16"),
     "C17": ("Hypothesis-generated boundary probes (on / 1,2,8 ulp inside / 1,2,8 ulp outside / far) at any batch position, for "
             "every domain-restricted transform and direction, float32 and float64; exception-type and finiteness oracle",
             "Exploration: one probe element placed relative to the domain edge (in the working dtype) among valid elements, for "
